@@ -382,8 +382,10 @@ func checkReuseBeforeGrow(p *Program, r *Result) {
 			sites = append(sites, bufSite{m, "chunkSlot", "buf"})
 		}
 	}
-	if lf := p.lookupFunc(pkgMcap, "loadChunk"); lf != nil {
-		sites = append(sites, bufSite{lf, "Lexer", "uncompressedChunk"})
+	for _, lf := range p.repoFunctions(pkgMcap) {
+		if len(fieldStores(lf, "Lexer", "uncompressedChunk")) > 0 {
+			sites = append(sites, bufSite{lf, "Lexer", "uncompressedChunk"})
+		}
 	}
 	for _, site := range sites {
 		f := site.f
